@@ -79,6 +79,30 @@ def pipeline(text: str, path: str) -> tuple[str, BaseException | None, bool]:
 		# an in-memory main module in the application whose source path holds the on-disk modules
 		s, name = st['disk'], '__main__'
 		s.set_source(name, text + '\n')
+	elif path == 'disk-overwrite':
+		# a module file that was loaded (and cached) in an accepted version a moment ago and is overwritten with the text under test
+		st['n'] += 1
+		s, name = st['disk'], f'vf07_ow{st["n"]}'  # a new file name each time: an application keeps the modification times it has seen
+		file = os.path.join(st['src_dir'], name + '.py')
+		t0 = 1_700_000_000.0 + 10 * st['n']
+		with open(file, 'w', encoding='utf-8', newline='') as f:
+			f.write(f'def f(a: int) -> int:\n\treturn a + {st["n"]}\n')
+		os.utime(file, (t0, t0))
+		try:
+			s.modules.unload(name)
+			s.transpiler.transpile(s.modules.load(name).entrypoint)
+		finally:
+			s.modules.unload(name)
+		with open(file, 'w', encoding='utf-8', newline='') as f:
+			f.write(text + '\n')
+		dt = (0.004, 0.3, 0.75)[st['n'] % 3]
+		os.utime(file, (t0 + dt, t0 + dt))
+		# the second version is met by a new application over the same cache directory (the next command-line run); an application
+		# does not watch files it has already read
+		from rogw.tranp.app.env import SourceEnvPath
+		from vf.session import Session
+		src_dir = st['src_dir']
+		s = Session(cache_dir=os.path.join(st['scratch'], 'cache-disk'), extra_definitions={'rogw.tranp.app.env.SourceEnvPath': lambda: SourceEnvPath.instantiate([src_dir])})
 	else:
 		s = st['disk']
 		st['n'] += 1
@@ -115,6 +139,8 @@ def judge(acc: Acc, case: dict) -> str | None:
 	acc.case(sig_of((text, path)), {'path': path, 'kind': kind, 'text': text[:160], 'outcome': stage + ('' if exc is None else ':' + type(exc).__name__)} if stage != 'ok' and len(text) < 200 else None, nontrivial)
 	if exc is None:
 		acc.see('outcome', f'{path}: ok')
+		if case.get('refused_in_memory'):
+			acc.violation('unparsable-accepted-on-disk', f'{path}: the in-memory submission of this text is refused with Errors.Syntax, the module file holding the same text is accepted: {text[:300]!r}', case)
 		return None
 	if isinstance(exc, BudgetExceeded):
 		# replay once with 5x the budget
@@ -148,7 +174,7 @@ def judge(acc: Acc, case: dict) -> str | None:
 	# the error rendering itself never fails
 	cwd = os.getcwd()
 	try:
-		if path == 'disk':
+		if path in ('disk', 'disk-overwrite'):
 			# the renderer quotes the offending line from '<module path>.py' relative to the working directory (as in a real command-line run)
 			os.chdir(state()['src_dir'])
 		rendered = str(ErrorRender(exc))
@@ -250,6 +276,10 @@ def shard(ctx: Ctx, acc: Acc) -> None:
 					judge(acc, {'text': text, 'path': 'memory', 'kind': kind + '+again'})
 				if i % 4 == 0 or kind.startswith('ill-typed'):
 					judge(acc, {'text': text, 'path': 'disk', 'kind': kind})
+				if i % 8 == 1 and 'valid' not in kind:
+					# the same text written over a module file that was accepted and cached a fraction of a second earlier
+					acc.see('input_kind', 'overwrites-an-accepted-file')
+					judge(acc, {'text': text, 'path': 'disk-overwrite', 'kind': kind, 'refused_in_memory': err == 'Syntax'})
 				# "reports it and keeps running": the real interactive process is fed the first input of every error class this shard meets
 				if (err is not None and err not in fed_classes and len(fed_classes) < 8 and feedable(text)) or (i % 997 == 0 and 'valid' not in kind):
 					if err is not None:
